@@ -77,6 +77,8 @@ fn random_steps(rng: &mut Rng) -> u64 {
         3 => 7,
         4 => 1 << 20,
         5 => (1u64 << 40) + 3,
+        // per-actor totals near 2^63: the sum over actors leaves the u64 range (reads are big integers)
+        6 => (1u64 << 61) + 1,
         _ => rng.below(5) as u64,
     }
 }
@@ -112,7 +114,10 @@ impl Sut for GC {
         let (op, steps, d) = if cmd.k == "inc" {
             (self.inc(actor), 1, "inc".to_string())
         } else {
-            let s = cmd.arg(0);
+            let mut s = cmd.arg(0);
+            if sh.totals[actor as usize][0] + s as u128 > (3u128 << 62) {
+                s = 1; // keep the actor's own running total inside u64
+            }
             (self.inc_many(actor, s), s, format!("inc_many({s})"))
         };
         sh.totals[actor as usize][0] += steps as u128;
@@ -161,7 +166,11 @@ impl Sut for PN {
         }
     }
     fn gen(&self, actor: A, cmd: &Cmd, sh: &mut Shadow, _old: &Self) -> Option<Gen<Self::Op>> {
-        let s = cmd.arg(0);
+        let mut s = cmd.arg(0);
+        let dir = if cmd.k.starts_with("dec") { 1 } else { 0 };
+        if sh.totals[actor as usize][dir] + s as u128 > (3u128 << 62) {
+            s = 1; // keep the actor's own running total inside u64
+        }
         let (op, neg, steps, d) = match cmd.k.as_str() {
             "inc" => (self.inc(actor), false, 1, "inc".to_string()),
             "dec" => (self.dec(actor), true, 1, "dec".to_string()),
